@@ -178,8 +178,26 @@ def run(ctx, prog):
         ctx.missing('C19.R1', 'a TokenBucket function that credits tokens from elapsed time (capped write of tokens derived from duration_since)')
     if not core:
         ctx.missing('C19.R1', 'a TokenBucket function that consumes a token (guarded tokens − 1)')
+    def _token_writes(b, want):
+        """blocks of b that write TokenBucket.tokens with a time credit (value derived from duration_since) / a consumption (− 1)"""
+        ofb = flow.Origin(b)
+        out = []
+        for i_, blk in enumerate(b.blocks):
+            if i_ not in b.live_blocks():
+                continue
+            for s_ in blk['s']:
+                rv_ = s_.get('rv')
+                pr_ = (s_['pl'].get('p') or []) if rv_ else []
+                fs_ = [x for x in pr_ if isinstance(x, str) and x != '*']
+                if rv_ and fs_ and fs_[-1].endswith('TokenBucket.tokens'):
+                    r_ = flow.render(ofb.of_rvalue(rv_, 0, frozenset()))
+                    if (want == 'credit' and 'duration_since' in r_) or (want == 'consume' and re.search(r'TokenBucket\.tokens Sub 1', r_)):
+                        out.append(i_)
+        return out
+
     for rf in credit:
-        tw = util.assign_blocks(rf, r'TokenBucket\.tokens$')
+        # the time-credit writes of this body (a body can also contain the consumption, e.g. when a helper was inlined)
+        tw = _token_writes(rf, 'credit')
         lw = util.assign_blocks(rf, r'TokenBucket\.last_refill$')
         if tw:
             st_ = [b_ for b_ in tw if b_ not in lw]
@@ -217,9 +235,13 @@ def run(ctx, prog):
                 k_ += 1
     for tc in core:
         rc = reaches_body(prog, tc, credit)
-        wr = [b_ for b_ in util.assign_blocks(tc, r'TokenBucket\.tokens$')]
-        ctx.inst('C19.R1', tc.short, 'try_consume refills first', bool(rc) and all(any(tc.dominates(c.bb, b_) for c in rc) for b_ in wr),
-                 'the time credit (%s) dominates the consumption' % [flow.short(c.callee) for c in rc][:2])
+        wr = _token_writes(tc, 'consume')
+        # the credit step may stand in this very body (inlined): its clock comparison (duration_since against last_refill) is what has to come first — the write
+        # itself may be conditional (`if elapsed > 0`)
+        otc = flow.Origin(tc)
+        own = [c.bb for c in tc.calls if c.callee and c.callee.endswith('Instant::duration_since') and len(c.args) > 1 and 'TokenBucket.last_refill' in flow.render(otc.of_operand(c.args[1]))]
+        ctx.inst('C19.R1', tc.short, 'try_consume refills first', (bool(rc) or bool(own)) and bool(wr) and all(any(tc.dominates(c.bb, b_) for c in rc) or any(tc.dominates(o_, b_) and o_ != b_ for o_ in own) for b_ in wr),
+                 'the time credit (%s) dominates the consumption' % ([flow.short(c.callee) for c in rc][:2] or 'in this body'))
 
     # ------------------------------------------------------------------ R2
     ctx.rule('C19.R2', 'check_limit on both bucket paths: `true` only past the tenant\'s and the global bucket\'s consumption (or no '
